@@ -223,6 +223,8 @@ func (nds *networkDigestSlice) RLPDecodeSelf(d codec.Decoder) error {
 		err := d2.Decode(&nd)
 		if err == io.EOF {
 			break
+		} else if err != nil {
+			return err
 		}
 		ndSlice = append(ndSlice, &nd)
 	}
